@@ -257,17 +257,36 @@ Definition dump_ok (lgk : N) (st : ospec) (ob : list Z) : bool :=
   && (fix asc (l : list N) : bool :=
         match l with x :: ((y :: _) as r) => (x <? y)%N && asc r | _ => true end) tab.
 
+(* The surprising-value table holds at most 3 * 2^min(26, lg_k + 5) / 4 pairs (PairTable::rebuild asserts): a pair
+   that needs more is outside the property's domain and must make the crate panic (the boundary is tied).
+   The table grows when a surprising one is inserted (at the offset before the pair) and is rebuilt when the
+   window moves (at the next offset). *)
+Definition cap_full (lgk n : N) : bool := (3 * 2 ^ (N.min 26 (lgk + 5)) <? 4 * n)%N.
+
+Definition overflows (lgk : N) (st st' : ospec) (col : N) : bool :=
+  let k := (2 ^ lgk)%N in
+  let c := o_c st in let c' := o_c st' in
+  if (c' =? c)%N then false                                   (* not novel: nothing is stored *)
+  else if (32 * c <? 3 * k)%N then cap_full lgk c'             (* sparse insert (never full in practice) *)
+  else
+    let off := spec_offset lgk c in
+    ((off + 8 <=? col)%N && cap_full lgk (spec_surprises st' k off))
+    || (((27 + 8 * off) * k <=? 8 * c')%N && cap_full lgk (spec_surprises st' k (off + 1))).
+
 Fixpoint prop_from (lgk : N) (st : ospec) (ops : list zop) (obs : list (list Z)) : bool :=
   match ops, obs with
+  | [], [] => true
   | (code, a) :: r, ob :: obr =>
       match code with
       | 0 => negb (list_eqb Z.eqb ob PANIC) && prop_from lgk o_empty r obr
       | 1 => let '(row, col) := spec_pair lgk (zN (nth 1 a 0)) (zN (nth 2 a 0)) in
              let st' := o_add st row col in
-             summary_ok lgk st' ob && prop_from lgk st' r obr
+             if overflows lgk st st' col then list_eqb Z.eqb ob PANIC      (* the case ends here on both sides *)
+             else summary_ok lgk st' ob && prop_from lgk st' r obr
       | 2 => let rc := zN (nth 0 a 0) in
              let st' := o_add st (rc / 64)%N (rc mod 64)%N in
-             summary_ok lgk st' ob && prop_from lgk st' r obr
+             if overflows lgk st st' (rc mod 64)%N then list_eqb Z.eqb ob PANIC
+             else summary_ok lgk st' ob && prop_from lgk st' r obr
       | 3 => dump_ok lgk st ob && prop_from lgk st r obr
       | 4 => list_eqb Z.eqb ob [1] && prop_from lgk st r obr
       | 5 => (Z.of_nat (length ob) =? Nz (2 ^ lgk)) && rows_ok st 0 ob && prop_from lgk st r obr
@@ -277,7 +296,7 @@ Fixpoint prop_from (lgk : N) (st : ospec) (ops : list zop) (obs : list (list Z))
              (zN (zat ob 0) =? spec_offset l c)%N && (0 <=? zat ob 0) && prop_from lgk st r obr
       | _ => negb (list_eqb Z.eqb ob PANIC) && prop_from lgk st r obr
       end
-  | _, _ => true
+  | _, _ => false                                                          (* an observation is missing *)
   end.
 
 Definition prop_ok (c : case) : bool :=
@@ -307,7 +326,7 @@ Definition image_ok_gen (lgk : N) (st : ospec) (merged : bool) (regs : option (Z
       && (ca_fic a <=? off)%N && cols_full_below st k (ca_fic a)
       && match ca_hip a, regs with
          | Some (x, y), Some (kxp, hip) => if (c =? 0)%N then true else (Nz x =? kxp) && (Nz y =? hip)
-         | Some _, None => negb merged || (c =? 0)%N        (* an empty union result is a fresh, unmerged sketch *)
+         | Some _, None => negb merged
          | None, Some _ => false                           (* sketches built by updates are never merged *)
          | None, None => merged
          end
@@ -361,7 +380,7 @@ Definition dumpnf_ok (lgk : N) (st : ospec) (merged : bool) (ob : list Z) : bool
   let windowed := negb (32 * c <? 3 * k)%N in
   summary_ok lgk st (firstn 4 (skipn 1 ob))
   && (zN (zat ob 0) =? lgk)%N
-  && ((c =? 0)%N || (zat ob 5 =? zbool merged))              (* a non-empty union result is marked as merged *)
+  && (zat ob 5 =? zbool merged)                              (* every union result is marked as merged *)
   && (Z.of_nat nwin =? (if windowed then Nz k else 0))
   && (Z.of_nat (length tab) =? ntab)
   && win_ok st off 0 win
@@ -433,7 +452,8 @@ Fixpoint union_from (sks : list (Z * sspec)) (uns : list (Z * uspec)) (ops : lis
               | None => false end
       | _ => ok && union_from sks uns r obr
       end
-  | _, _ => true
+  | [], [] => true
+  | _, _ => false
   end.
 
 Definition union_ok (c : case) : bool := union_from [] [] (c_ops c) (c_obs c).
@@ -462,7 +482,8 @@ Fixpoint extremes_from (ops : list zop) (obs : list (list Z)) : bool :=
               list_eqb Z.eqb ob [Nz cc; Nz (spec_flavor l cc); Nz (spec_offset l cc); 1; 1; Nz cc; 1]
       | _ => true
       end && extremes_from r obr
-  | _, _ => true
+  | [], [] => true
+  | _, _ => false
   end.
 
 Definition extremes_ok (c : case) : bool := extremes_from (c_ops c) (c_obs c).
@@ -477,9 +498,10 @@ Fixpoint layout_from (lgk : N) (st : ospec) (kxp hip : Z) (ops : list zop) (obs 
       | 2 => let rc := zN (nth 0 a 0) in
              layout_from lgk (o_add st (rc / 64)%N (rc mod 64)%N) (zat ob 4) (zat ob 5) r obr
       | 19 => image_ok lgk st kxp hip (zN (nth 0 a 0)) ob && layout_from lgk st kxp hip r obr
-      | _ => layout_from lgk st kxp hip r obr
+      | _ => negb (list_eqb Z.eqb ob PANIC) && layout_from lgk st kxp hip r obr
       end
-  | _, _ => true
+  | [], [] => true
+  | _, _ => false
   end.
 
 Definition layout_ok (c : case) : bool :=
@@ -513,7 +535,8 @@ Fixpoint malformed_from (ops : list zop) (obs : list (list Z)) : bool :=
   | (code, a) :: r, ob :: obr =>
       (if (code =? 40) || (code =? 41) then deser_obs_ok ob else negb (list_eqb Z.eqb ob PANIC))
       && malformed_from r obr
-  | _, _ => true
+  | [], [] => true
+  | _, _ => false
   end.
 
 Definition malformed_ok (c : case) : bool := malformed_from (c_ops c) (c_obs c).
